@@ -462,6 +462,9 @@ func (t *Collection) VisitItemsRandom(
 	if err != nil {
 		return err
 	}
+	if numBlocks == 0 {
+		return nil // Empty collection: nothing to visit.
+	}
 	if (lenBlock < 1) || (numBlocks < 1) {
 		return fmt.Errorf("impossible block sizes,%d,%d", lenBlock, numBlocks)
 	}
@@ -526,6 +529,9 @@ func (t *Collection) VisitItemsAscendBlockEx(
 	//log.Println("There are ", numBlocks, " of Length ", lenBlock)
 	if err != nil {
 		return err
+	}
+	if numBlocks == 0 {
+		return nil // Empty collection: nothing to visit.
 	}
 	if (lenBlock < 1) || (numBlocks < 1) {
 		return fmt.Errorf("impossible block sizes,%d,%d", lenBlock, numBlocks)
@@ -612,7 +618,7 @@ func (t *Collection) Len() (l int64, err error) {
 		return true
 	}
 	si, err := t.MinItem(false)
-	if err != nil {
+	if err != nil || si == nil {
 		return
 	}
 	err = t.VisitItemsAscendEx(si.Key, false, visitor)
